@@ -7,14 +7,21 @@ PROP = "C03"
 
 def scenarios(rng, tier):
     out = []
-    n = 6 if tier == "quick" else 40
+    n = 8 if tier == "quick" else 52
     kinds = ["file-link", "file-copy", "dir-link", "dir-copy", "dir-recommit", "xdev-link", "checkout-link", "checkout-copy", "stage-add", "stage-remove",
-             "dir-recommit"]
+             "dir-recommit", "stage-symlink", "artifact-xdev"]
     for i in range(n):
-        kind = kinds[i % len(kinds)] if tier == "thorough" else ["dir-link", "dir-recommit", "xdev-link", "file-copy", "checkout-copy", "stage-add"][i % 6]
+        kind = kinds[i % len(kinds)] if tier == "thorough" else ["dir-link", "dir-recommit", "xdev-link", "file-copy", "checkout-copy", "stage-add",
+                                                                   "stage-symlink", "artifact-xdev"][i % 8]
         init = []
         stages = []
-        if kind.startswith("file"):
+        if kind == "artifact-xdev":
+            # the artifact lives below a mount point: same file system for project root and cache (the rename probe succeeds),
+            # another one for the artifact (dud's commit fails with EXDEV there; what it leaves behind must be safe all the same)
+            init = [("mount", b"mnt"), ("dir", b"mnt/tree"), ("file", b"mnt/tree/a.bin", "g:%d:300000" % rng.randrange(100)),
+                    ("file", b"mnt/tree/b.bin", "g:%d:5" % rng.randrange(100))]
+            stages = [(b"s.yaml", dict(cmd=b"", wd=b".", out=[(b"mnt/tree", "d")]))]
+        elif kind.startswith("file"):
             init = [("file", b"data.bin", "g:%d:%d" % (rng.randrange(100), rng.choice([0, 5, 70000])))]
             stages = [(b"s.yaml", dict(cmd=b"", wd=b".", out=[(b"data.bin", "")]))]
         else:
@@ -42,6 +49,16 @@ def scenarios(rng, tier):
         elif kind == "stage-remove":
             c["ops"] = [("commit", "l", [])]
             c["cmd"] = ["stage", "remove", "s.yaml"]
+        elif kind == "stage-symlink":
+            c["symlink_stage"] = True            # s.yaml -> shared/s.yaml
+            c["no_trace"] = True
+            if rng.random() < 0.5:
+                c["ops"] = [("commit", "l", []), ("write", files[0][1], "g:%d:44" % rng.randrange(3000, 4000))]
+            c["cmd"] = ["commit"]
+        elif kind == "artifact-xdev":
+            c["no_trace"] = True
+            c["may_fail"] = True
+            c["cmd"] = ["commit"]
         else:
             c["cmd"] = ["commit"] + (["--copy"] if kind.endswith("copy") else [])
         out.append(c)
@@ -75,6 +92,12 @@ def main(tier, replay=None):
                     sc.proj.stage_paths.remove(sp)          # not in the index yet
                     sc.proj.stage_paths.append(sp)
                     sc.save()
+                if c.get("symlink_stage"):
+                    root = sc.proj.root
+                    os.makedirs(os.path.join(root, "shared"), exist_ok=True)
+                    os.rename(os.path.join(root, "s.yaml"), os.path.join(root, "shared", "s.yaml"))
+                    os.symlink(os.path.join("shared", "s.yaml"), os.path.join(root, "s.yaml"))
+                    sc.save()
                 before = sc.snapshot()
                 stage_old = {sp: (d[0] if d else None) for sp, d in before["stages"].items()}
                 rc, raw, se = sc.run(stepper, c["cmd"])
@@ -82,11 +105,11 @@ def main(tier, replay=None):
                 clean = sc.snapshot()
                 stage_new = {sp: (d[0] if d else None) for sp, d in clean["stages"].items()}
                 n = len([l for l in raw if l.split("\t")[0].isdigit()])
-                if rc != 0:
+                if rc != 0 and not c.get("may_fail"):
                     R.violation(dict(kind="harness-error", scenario=c["id"], detail="baseline command failed: %s" % se.decode(errors="replace")[-300:]), nofail=True)
                     continue
                 # model trace (commit scenarios)
-                if c["cmd"][0] == "commit":
+                if c["cmd"][0] == "commit" and not c.get("no_trace"):
                     can_rename = c["cache"] != "shm"
                     sc.restore()
                     orders = s2.listing_orders(sc.proj)
